@@ -35,6 +35,7 @@ def plan(tier, seed):
     q = tier == "quick"
     specs = [{"mode": "histories", "seed": seed, "shard": i, "n": 10 if q else 60, "tier": tier} for i in range(14 if q else 40)]
     specs += [{"mode": "perm", "seed": seed, "shard": i, "perms": 15 if q else 75} for i in range(2 if q else 4)]
+    specs += [{"mode": "cliopts", "seed": seed, "shard": i} for i in range(2 if q else 8)]
     return specs
 
 
@@ -327,9 +328,81 @@ def run_perms(spec):
     return sh
 
 
+def run_cli_options(spec):
+    """several files in one run of the real command line under an option set: every file's observation (recorded inside
+    the child) must equal its observation when it is the only file of a run with the same options"""
+    import shutil
+    import tempfile
+    from nv import cliobs
+    sh = Shard()
+    rng = random.Random("c06cli/%s/%d" % (spec["seed"], spec["shard"]))
+    tmp = tempfile.mkdtemp(prefix="nv_c06_")
+    try:
+        files = []
+        for k, (p, tag) in enumerate(pipework.base_programs({"seed": spec["seed"], "shard": 1500 + spec["shard"], "n": 6})):
+            name = "f%d.%s" % (k, p.ftype)
+            src = p.text() if p.ftype == "c" else conf_rename_guard(p, name)
+            files.append((name, src))
+            for q, o, _ in pipework.variants(p, rng, per_op=1, ops=[x for x in pipework.viol.OPS if x["id"] in ("V43", "V61", "V60")]):
+                vname = "v%d.%s" % (k, p.ftype)
+                files.append((vname, q.text() if p.ftype == "c" else conf_rename_guard(q, vname)))
+                break
+        for name, src in files:
+            with open(os.path.join(tmp, name), "w") as f:
+                f.write(src)
+        names = [n for n, _ in files]
+        for opts in (["-R", "CheckDefine"], ["-R", "x"], ["-d"], ["-f", "json"], ["--no-colors", "-o"], []):
+            alone = {}
+            for n in names:
+                run = cliobs.run_cli(opts + [n], cwd=tmp)
+                alone[n] = _child_obs(run, n)
+            for rep in range(2):
+                order = names[:]
+                rng.shuffle(order)
+                order = order[:rng.randint(2, len(order))]
+                run = cliobs.run_cli(opts + order, cwd=tmp)
+                sh.case("cliopts\0" + " ".join(opts) + "\0" + " ".join(order))
+                sh.tally("histories", "cli_run_with_options")
+                for n in order:
+                    got = _child_obs(run, n)
+                    if got is None or alone[n] is None:
+                        continue        # a fatal file ends the run (C04's finding F-16b)
+                    sh.count("c06.observation_equals_reference")
+                    sh.count("c06.same_under_options_in_a_multi_file_run")
+                    if got != alone[n]:
+                        sh.violation("multi_file_run_changes_observation", (" ".join(o for o in opts if o.startswith("-")),),
+                                     {"mode": "cliopts", "opts": opts, "order": order, "files": dict(files), "target": n},
+                                     {"options": opts, "order": order, "target": n,
+                                      "only_alone": [e for e in alone[n][1] if e not in got[1]][:4],
+                                      "only_in_run": [e for e in got[1] if e not in alone[n][1]][:4]})
+        sh.sample({"options": ["-R", "CheckDefine"], "argv_files": names[:4]})
+    finally:
+        shutil.rmtree(tmp, ignore_errors=True)
+    return sh
+
+
+def conf_rename_guard(p, name):
+    g0 = p.meta.get("guard")
+    src = p.text()
+    return src.replace(g0, name.upper().replace(".", "_")) if g0 else src
+
+
+def _child_obs(run, basename):
+    if run.trace is None:
+        return None
+    for f in run.trace.get("files", []):
+        if f["basename"] == basename:
+            if f.get("state") != "done":
+                return None
+            return (f.get("status"), sorted((e[0], e[1], e[2], e[3]) for e in f.get("events") or []))
+    return None
+
+
 def run_shard(spec):
     if spec["mode"] == "perm":
         return run_perms(spec).result()
+    if spec["mode"] == "cliopts":
+        return run_cli_options(spec).result()
     return run_histories(spec).result()
 
 
@@ -341,6 +414,21 @@ def replay(case, sh):
         got = obs_now(case["target"][0], case["target"][1])
         if got != case["reference"]:
             sh.violation("history_changes_observation", ("replay",), case, {"got": got[:2], "reference": case["reference"][:2]})
+    elif case["mode"] == "cliopts":
+        import shutil
+        import tempfile
+        from nv import cliobs
+        tmp = tempfile.mkdtemp(prefix="nv_c06r_")
+        try:
+            for n, t in case["files"].items():
+                with open(os.path.join(tmp, n), "w") as f:
+                    f.write(t)
+            a = _child_obs(cliobs.run_cli(case["opts"] + [case["target"]], cwd=tmp), case["target"])
+            b = _child_obs(cliobs.run_cli(case["opts"] + case["order"], cwd=tmp), case["target"])
+            if a is not None and b is not None and a != b:
+                sh.violation("multi_file_run_changes_observation", ("replay",), case, {})
+        finally:
+            shutil.rmtree(tmp, ignore_errors=True)
     elif case["mode"] == "perm":
         req = json.dumps({"files": case["files"]}).encode()
         outs = []
